@@ -55,6 +55,9 @@ CLAIMS = {
             "validate identically on symbolic documents, for every value of the symbolic condition arguments, primitive parts and "
             "labels; the YAML text route (Schema.from_yaml, from_yaml_file) is outside the solver's claim and exercised on each "
             "case's concrete witness only", "3 C10"),
+    "C16": ("one inductive step per entry point and spec form: the caller's spec is type-exactly unchanged by a parse, the second and "
+            "third parse of the same structure equal the first and the module lookup tables are unchanged, for every value of the "
+            "symbolic atoms inside the spec - hence any number of repeated parses", "3 C16"),
     "C14": ("equality laws (reflexive/symmetric/transitive, rebuilt and commuted copies equal) and 'equal implies same "
             "behaviour' decided for every value of the differing atom (key, index, argument, label) and of the probe "
             "document's leaves, per term kind", "3 C14"),
